@@ -737,7 +737,7 @@ func (t *fnTr) call(c *ast.CallExpr) fnVal {
 			if tv, ok := t.pkg.info.Types[a]; ok && tv.Value != nil {
 				continue
 			}
-			if t.isNameCall(a) {
+			if t.isNameCall(a) || t.isTableLookup(a) {
 				continue
 			}
 			if v := t.expr(a); !v.pure {
